@@ -73,7 +73,21 @@ fn thread_name() -> String {
     std::thread::current().name().unwrap_or("").to_string()
 }
 
+/// When set (trace children), every entry into a journal critical section past the poison check
+/// (`*.drawn`) is written into the syscall trace as a marker `H drawn`.
+pub static MARK_DRAWN: AtomicBool = AtomicBool::new(false);
+pub static DRAWN_DELAY_US: AtomicU64 = AtomicU64::new(0);
+
 fn handler(name: &'static str, arg: u64) {
+    if MARK_DRAWN.load(Ordering::Relaxed) && (name == "write.drawn" || name == "batch.drawn") {
+        crate::engine_trace::write_mark("H drawn\n");
+        // hold the journal lock a little longer so that other clients queue up at the lock (whatever they
+        // did before asking for it - e.g. a poison check in the wrong place - is then already behind them)
+        let us = DRAWN_DELAY_US.load(Ordering::Relaxed);
+        if us > 0 {
+            std::thread::sleep(std::time::Duration::from_micros(us));
+        }
+    }
     let g = global();
     let mut park = false;
     {
